@@ -7,6 +7,7 @@ import (
 	"os"
 	"path/filepath"
 	"runtime"
+	"runtime/pprof"
 	"sort"
 	"strconv"
 	"strings"
@@ -118,6 +119,18 @@ func cmdRun(args []string) int {
 	tlimit := fs.Duration("tl", 0, "time limit per instance")
 	redir := fs.String("redirect", "", "from=pkg:Func[,from=pkg:Func] call redirections (summaries / stubs)")
 	fs.Parse(args)
+	if pf := os.Getenv("VP_CPUPROFILE"); pf != "" {
+		if f, err := os.Create(pf); err == nil {
+			pprof.StartCPUProfile(f)
+			defer pprof.StopCPUProfile()
+			go func() { // experimentation: flush and leave after a fixed time
+				time.Sleep(45 * time.Second)
+				pprof.StopCPUProfile()
+				f.Close()
+				os.Exit(3)
+			}()
+		}
+	}
 	e, err := setup(*repo, *verif, *z3, 12)
 	defer e.close()
 	if err != nil {
@@ -534,26 +547,26 @@ func writeEvidence(verif, prop, tier string, seed int64, obs []*spec.Oblig, sums
 			"library models (errors/fmt opaque, strings.IndexRune on constant haystacks, UTF-8 built-ins, sync.Mutex as owner flag, math.* concrete) as listed in DESIGN.md section 2.4",
 			"soundness of the term simplifier (fuzz-tested against reference semantics in engine/term) and of the solver"),
 		"coverage": map[string]interface{}{
-			"states":                        t.paths,
-			"transitions":                   t.steps,
-			"traces_validated_against_impl": t.validated,
-			"samples":                       samples,
-			"obligations":                   t.vcs + t.trivial,
-			"discharged":                    t.vcs + t.trivial - t.viol - t.inc,
-			"evaluations":                   len(sums),
-			"distinct_nontrivial":           nontrivial,
-			"rule":                          "one evaluation = one harness instance (harness function x configuration) explored path-exhaustively by the symbolic executor; an instance is non-trivial if at least one of its obligations or branch decisions needed the SMT solver (not closed by term normalisation alone); states = complete feasible paths, transitions = go/ssa instructions interpreted",
-			"technique":                     "bounded symbolic execution of go/ssa of /repo's current tree into SMT-LIB2; verdicts by " + z3,
-			"obligation_families":           oblDocs,
-			"solver_vcs":                    t.vcs,
+			"states":                           t.paths,
+			"transitions":                      t.steps,
+			"traces_validated_against_impl":    t.validated,
+			"samples":                          samples,
+			"obligations":                      t.vcs + t.trivial,
+			"discharged":                       t.vcs + t.trivial - t.viol - t.inc,
+			"evaluations":                      len(sums),
+			"distinct_nontrivial":              nontrivial,
+			"rule":                             "one evaluation = one harness instance (harness function x configuration) explored path-exhaustively by the symbolic executor; an instance is non-trivial if at least one of its obligations or branch decisions needed the SMT solver (not closed by term normalisation alone); states = complete feasible paths, transitions = go/ssa instructions interpreted",
+			"technique":                        "bounded symbolic execution of go/ssa of /repo's current tree into SMT-LIB2; verdicts by " + z3,
+			"obligation_families":              oblDocs,
+			"solver_vcs":                       t.vcs,
 			"vcs_closed_by_term_normalisation": t.trivial,
-			"feasibility_queries":           t.feas,
-			"solver_seconds":                t.solverSecs,
-			"inconclusive":                  t.inc,
-			"known_findings_seen":           kf,
-			"repo_functions_executed":       fl,
-			"instances":                     sums,
-			"exhaustive":                    false,
+			"feasibility_queries":              t.feas,
+			"solver_seconds":                   t.solverSecs,
+			"inconclusive":                     t.inc,
+			"known_findings_seen":              kf,
+			"repo_functions_executed":          fl,
+			"instances":                        sums,
+			"exhaustive":                       false,
 		},
 	}
 	os.MkdirAll(filepath.Join(verif, "evidence"), 0o755)
